@@ -215,6 +215,12 @@ theorem finish_P (hP : Closed P) (s : St) (hs : P s.g) : P (finish s).1.g := by
 /-- the start of a call: the per-call output and Put counter are reset -/
 def Gate.begin (g : Gate) : Gate := { g with puts := 0, out := [] }
 
+theorem removeMarkedBlock_g (s s1 : St) (h : Nat) (he : removeMarkedBlock s h = some s1) : s1.g = s.g := by
+  unfold removeMarkedBlock at he
+  split at he
+  · cases he
+  · split at he <;> (cases he; rfl)
+
 theorem call_P (hP : Closed P) (s : St) (e : Ev) (hs : P s.g.begin) :
     P (step s e).1.g ∨ ∃ n after, e = .arm n after ∨ e = .crash ∨ ∃ en, e = .env en := by
   cases e with
@@ -223,13 +229,22 @@ theorem call_P (hP : Closed P) (s : St) (e : Ev) (hs : P s.g.begin) :
     exact finish_P hP _ (updateContext_P hP _ _ _ _ _ hs)
   | vote m =>
     left; unfold step; simp only
-    have h1 : P (processVoteMsg { s with g := { s.g with puts := 0, out := [] } } m).1.g :=
+    have h1 : P (processVoteMsg { s with g := { s.g with puts := 0, out := [] }, env := { s.env with bls := false } } m).1.g :=
       processVoteMsg_P hP _ m hs
-    have h2 := finish_P hP _ h1
+    have h2 := finish_P hP
+      { (processVoteMsg { s with g := { s.g with puts := 0, out := [] }, env := { s.env with bls := false } } m).1 with
+        env := { (processVoteMsg { s with g := { s.g with puts := 0, out := [] }, env := { s.env with bls := false } } m).1.env
+                 with bls := s.env.bls } } h1
     split_ifs
     · exact h2
     · exact restart_P hP _ h2
     · exact h2
+  | unmark h =>
+    left; unfold step; simp only
+    split
+    · exact restart_P hP _ (finish_P hP _ hs)
+    · rename_i s1 he
+      exact finish_P hP _ (by rw [removeMarkedBlock_g _ _ _ he]; exact hs)
   | crash => right; exact ⟨0, false, Or.inr (Or.inl rfl)⟩
   | arm n after => right; exact ⟨n, after, Or.inl rfl⟩
   | env en => right; exact ⟨0, false, Or.inr (Or.inr ⟨en, rfl⟩)⟩
@@ -241,6 +256,7 @@ theorem step_P (hP : Closed P) (hout : ∀ g o, P g → P { g with out := o }) (
   cases e with
   | ctx r i st cert => rcases call_P hP s (.ctx r i st cert) hb with h | ⟨_, _, h | h | ⟨_, h⟩⟩ <;> first | exact h | cases h
   | vote m => rcases call_P hP s (.vote m) hb with h | ⟨_, _, h | h | ⟨_, h⟩⟩ <;> first | exact h | cases h
+  | unmark u => rcases call_P hP s (.unmark u) hb with h | ⟨_, _, h | h | ⟨_, h⟩⟩ <;> first | exact h | cases h
   | crash => unfold step; exact restart_P hP _ (hout _ [] hs)
   | arm n after => unfold step; exact hout _ [] (hP.frame s.g (some (n, after)) s.g.puts hs)
   | env e => unfold step; exact hout _ [] hs
